@@ -32,6 +32,12 @@ CHECKS = {
         note="Trusted: Lean kernel + standard axioms; virtual scheduler as the lens on the real threads; source states assumed truthy (a falsy source state is never stored by `_populate_queue`, documented).",
         ref="DESIGN.md §7 C06",
     ),
+    "C08": dict(
+        technique="Lean 4 proof of the value-level content (state_dict is transparent: L1 of Lawful per combinator; load is idempotent; exact resume of the weighted sampler; lossless worker-state values) + byte-level immutability oracle on the real objects",
+        text="In the functional models a state dict is a value, so what the theorems carry is: taking a state changes no later output (TDV.Node.built_lawful L1, TDV.Loader.get_transparent_partial with the refuted unrestricted statement = known finding C13/loader-state-dict-before-load), loading the same token twice gives the same continuation (TDV.Loader.load_idempotent, TDV.Weighted.node_resume_exact), worker states are transferred as values (TDV.Incr.lossless_state). Aliasing between live mutable state and a returned or loaded dict cannot be expressed in a value model: it is decided on every run by the oracle - every returned dict is pickled at creation and deep-compared after later iteration of its producer, after loading it, after iterating the loaded object and after a second load, for StatefulDataLoader configurations (virtual workers) and nodes pipelines (bare and behind a Loader, incl. MultiNodeWeightedSampler).",
+        note="Partial: object aliasing is outside the Lean models (values); that half of the property is exploration on the real objects, which found and now guards two repaired defects (weighted sampler kept the loaded map; single-process state_dict aliased dataset state).",
+        ref="DESIGN.md §7 C08",
+    ),
     "C09": dict(
         technique="Lean 4 proof on the protocol model with kill actions (safety of yields, detection enabledness) + fault enumeration of virtual SIGKILLs at every switch point of the real worker loop",
         text="TDV.MP.kill_safe(_map), kill_detected: with any number of worker deaths the yields stay a prefix of the reference and stop is never returned while a task of a dead unretired worker is outstanding; a consumer waiting on a dead worker's task has the liveness-poll action enabled, which raises. Oracle: kill worker w at its n-th switch point (start-up, idle, after get, mid-fetch, before/after put): outcome is prefix+RuntimeError or a complete epoch, never hang/early stop/wrong data; a checkpoint taken before the death resumes correctly.",
